@@ -1,6 +1,7 @@
 //! pbverif - property-based testing / fuzzing harness for Rahix/profirust (see /verif/DESIGN.md).
 pub mod apps;
 pub mod dpdrv;
+pub mod dpfull;
 pub mod dporacles;
 pub mod engine;
 pub mod envsim;
